@@ -19,6 +19,9 @@ WORK = os.path.join(VERIF, ".work")
 def prepare(name, features, repo, extra_deps=""):
     src = os.path.join(VERIF, "witness", name)
     slot = "%s-%s" % (name, "+".join(features) or "default")
+    if os.path.abspath(repo) != "/repo":
+        import hashlib
+        slot += "-" + hashlib.sha1(os.path.abspath(repo).encode()).hexdigest()[:8]
     dst = os.path.join(WORK, "witness", slot)
     if os.path.exists(dst):
         shutil.rmtree(dst)
@@ -81,16 +84,24 @@ def expectations(dst, features=()):
 def run(name, features, repo="/repo", extra_deps="", prop="C19", rule="W"):
     """returns (obs, info)"""
     t0 = time.time()
-    dst, slot = prepare(name, features, repo, extra_deps)
-    exp = expectations(dst, features)
+    base_slot = "%s-%s" % (name, "+".join(features) or "default")
+    os.makedirs(WORK, exist_ok=True)
+    lk0 = open(os.path.join(WORK, "lock-witness-prep-" + base_slot), "w")
+    fcntl.flock(lk0, fcntl.LOCK_EX)
+    try:
+        dst, slot = prepare(name, features, repo, extra_deps)
+        exp = expectations(dst, features)
+    finally:
+        fcntl.flock(lk0, fcntl.LOCK_UN)
+        lk0.close()
     env = dict(os.environ)
     env["CARGO_NET_OFFLINE"] = "true"
-    env["CARGO_TARGET_DIR"] = os.path.join(WORK, "target-witness-" + slot)
+    env["CARGO_TARGET_DIR"] = os.path.join(WORK, "target-witness-" + base_slot)
     env.pop("RUSTC_WORKSPACE_WRAPPER", None)
     env.pop("RUSTFLAGS", None)
     cfg = "+".join(features) or "default"
     cmd = ["cargo", "check", "--offline", "--lib", "--examples", "--keep-going", "--message-format=json"]
-    with open(os.path.join(WORK, "lock-witness-" + slot), "w") as lk:
+    with open(os.path.join(WORK, "lock-witness-" + base_slot), "w") as lk:
         fcntl.flock(lk, fcntl.LOCK_EX)
         p = subprocess.run(cmd, cwd=dst, env=env, stdout=subprocess.PIPE, stderr=subprocess.PIPE, text=True)
     errs = {}      # target name -> list of (code, message, rendered)
@@ -170,6 +181,8 @@ def run(name, features, repo="/repo", extra_deps="", prop="C19", rule="W"):
             else:
                 obs.append(Ob(rule, "%s|%s" % (name, ex), "violation", "witness/%s/examples/%s.rs" % (name, ex),
                               "negative twin `%s` compiles although it must be rejected with %s: the guarantee it witnesses no longer holds" % (ex, want), cfg))
+    if os.path.abspath(repo) != "/repo":
+        shutil.rmtree(dst, ignore_errors=True)
     return obs, info
 
 
